@@ -53,7 +53,8 @@ def cases(tier, seed):
         g = dict(seed=rng.randrange(10 ** 9), ndims=nd, nlevels=1 + i % 3, bf=bf, names=names,
                  base_blocks=(1, 2) if bf == 4 else (2, 3), payload=rng.choice(["random", "special", "random"]),
                  time=[0.0, -2.5, 1e300, 3.25e-7, 7.0, 123456.789, float("inf"), float("-inf"), float("nan"), -0.0][(i * 7 + rng.randrange(2)) % 10])
-        cs.append({"gen": g, "sel_seed": seed * 73 + i, "subprocess": i < 2})
+        # every fourth case: extrema on a decimal tie at the third significant digit (2.665 -> 2.67, -1.145 -> -1.15)
+        cs.append({"gen": g, "sel_seed": seed * 73 + i, "subprocess": i < 2, "ties": i % 4 == 2})
     return cs
 
 
@@ -115,6 +116,8 @@ def run_case(case, work, rec):
     names = m.names
     digest = common.sha(case["gen"])
     rec.sample({"plotfile": gen.describe(m), "names": names, "time": m.time})
+    if case.get("ties"):
+        rec.count("extrema_on_decimal_ties")
     reps = represent(names)
     species = sorted(re.sub(r"\)$", "", re.sub(r"^Y\(", "", n)) for n in names if re.search(r"^Y\(.+\)$", n))
     odd = len(names) % 2 == 1
